@@ -171,6 +171,9 @@ def malformed_cases(r: Run, wf):
     out += ["C[14]2", "C[14]", "C[0]", "C[]", "C[]2", "Ac[0]", "C[65536]", "C[99999999999]", "C99999999999", "C2147483648",
             "(C)99999999999", "H)", "Xx", "H ", "H-2", "Hé", "H]", "C[13", "C[1[3]]", "()", "(())", "(", ")", "(C", "C)", "((C)",
             "C[13]x", "C[+13]", "C[-1]", "C(", "C2(", "C[13](", "e*", "e*1", "c", "h2o", "C²", "C[²]", "C٣", "(C)²",
+            # an isotope bracket whose number does not parse, FOLLOWED by a count (the bracket is read when the
+            # count is flushed: mid-string and at the end of input)
+            "C[99999]2", "C[99999]2H", "C[65536]1O2", "C[²]2", "C[²]2O", "(C[99999]2)3", "C[٣]4", "O2C[70000]3",
             "(" * 3000 + "C", "(" * 1500 + ")" * 1500, "C" * 5000, "(C)" * 1000, "((" * 800 + "C" + "))" * 800 + "x"]
     return out
 
